@@ -10887,15 +10887,6 @@ int cg_1to1_write(int fn, int B, int Z, const char * connectname,
     zone = cgi_get_zone(cg, B, Z);
     if (zone==0) return CG_ERROR;
 
-     /* Allocate ZoneGridConnectivity data struct. if not already created */
-    if (zone->nzconn == 0) {
-        zone->nzconn = zone->active_zconn = 1;
-        zone->zconn = CGNS_NEW(cgns_zconn, 1);
-        strcpy(zone->zconn->name,"ZoneGridConnectivity");
-    }
-    zconn = cgi_get_zconn(cg, B, Z);
-    if (zconn == 0) return CG_ERROR;
-
      /* verify input */
     index_dim = zone->index_dim;
     for (i=0; i<index_dim; i++) {   /* can't check donorrange because it may not yet be written */
@@ -10919,6 +10910,15 @@ int cg_1to1_write(int fn, int B, int Z, const char * connectname,
             }
         }
     }
+
+     /* Allocate ZoneGridConnectivity data struct. if not already created */
+    if (zone->nzconn == 0) {
+        zone->nzconn = zone->active_zconn = 1;
+        zone->zconn = CGNS_NEW(cgns_zconn, 1);
+        strcpy(zone->zconn->name,"ZoneGridConnectivity");
+    }
+    zconn = cgi_get_zconn(cg, B, Z);
+    if (zconn == 0) return CG_ERROR;
 
      /* Overwrite a GridConnectivity1to1_t Node: */
     for (index=0; index<zconn->n1to1; index++) {
